@@ -122,6 +122,11 @@ def lifecycle_descs(tier, seed, hib_values=(False, True), objs=("twofunnel", "pl
         out.append(("bounded", dict(engines=list(eng), gens=2, Mh=5, hib=bool(j % 2), seed=s + j, choices="GLS", lsc=[None, None, {"kind": "metaepoch", "m": 1 + j % 2}],
                                     gsc={"kind": "horizon"}, maximize=bool(j % 2), obj="lin_corner", box=("B_asym", "B_sym")[j % 2], gen_order=("reverse", "interleave")[j % 2],
                                     sprout={"kind": "scripted", "L": 2, "default": 1})))
+    # bounds given as an INTEGER array (as in the library's own tests)
+    for j, eng in enumerate([("SEA", "SEA"), ("DE", "SEAX", "GA"), ("LHS", "DE"), ("SEA", "CMAf")]):
+        out.append(("bounded", dict(engines=list(eng), gens=1 + j % 2, Mh=4, hib=bool(j % 2), seed=s + j, choices="GLS", lsc=[None] + [{"kind": "metaepoch", "m": 2}] * (len(eng) - 1),
+                                    gsc={"kind": "horizon"}, maximize=bool(j % 2), obj=("twofunnel", "sphere_in")[j % 2], box="B_int", int_bounds=True,
+                                    sprout={"kind": "scripted", "L": 2, "default": 1})))
     # more than ten children of one parent (ids with two digits), no deviations
     for j, eng in enumerate([("SEA", "DE"), ("DE", "SEA", "SHADE"), ("LHS", "CMAf")]):
         out.append(("bounded", dict(engines=list(eng), gens=1, Mh=13, hib=bool(j % 2), seed=s + j, choices="", lsc=[None] + [{"kind": "metaepoch", "m": 1}] * (len(eng) - 1),
